@@ -14,7 +14,7 @@
    The side conditions (sd_leaf, fai_leaf, fci_leaf, ite_leaf : tstmt -> bool, proofs/TransformTree.v)
    are decidable. *)
 From Coq Require Import List String Permutation.
-From Dagrt Require Import GenLang GenC07 Lang Sched Transform TransformSem TransformBasics TransformHoist
+From Dagrt Require Import GenLang GenC07 Lang Sched Transform TransformSem TransformSide TransformBasics TransformHoist
      TransformSpec TransformMappers TransformLeaf TransformStmt TransformSd TransformTree TransformProj
      TransformProofs.
 
@@ -38,10 +38,10 @@ Print Assumptions C07_traced_values.
 
 (* eliminate_self_dependencies: semantics, call log, fresh names and ids -- every structured phase *)
 Theorem C07_self_dependencies : forall F dg lbr ords t t' st',
-  eliminate_self_dependencies lang_lhs_sub_reads lbr c07_seed_node_vars ords t = TOk (t', st') ->
+  eliminate_self_dependencies lang_lhs_sub_reads lbr c07_seed_node_vars c07_sd_sorted ords t = TOk (t', st') ->
   forallb sd_leaf (tstmts t) = true ->
   pass_ok F dg (seeded lang_lhs_sub_reads lbr c07_seed_node_vars t) t t' st'.
-Proof. exact (fun F dg => sd_thm F dg lang_lhs_sub_reads c07_seed_node_vars eq_refl eq_refl). Qed.
+Proof. exact (fun F dg lbr => sd_thm F dg lang_lhs_sub_reads c07_seed_node_vars eq_refl eq_refl lbr c07_sd_sorted). Qed.
 Print Assumptions C07_self_dependencies.
 
 (* isolate_function_arguments; excluded: calls with non-variable arguments in a conditionally evaluated
@@ -75,9 +75,9 @@ Print Assumptions C07_expand_conditionals_partial.
 (* the four passes in the order of fortran.py's process_ast; the side conditions on the three
    intermediate trees are decidable and evaluated by the check on every case *)
 Theorem C07_pipeline_partial : forall F dg lbr fixed ords t t4,
-  run_passes lang_lhs_sub_reads lbr c07_seed_node_vars fixed c07_ite_flag_first ords fortran_pass_order t = TOk t4 ->
+  run_passes lang_lhs_sub_reads lbr c07_seed_node_vars c07_sd_sorted fixed c07_ite_flag_first ords fortran_pass_order t = TOk t4 ->
   exists t1 t2 t3 g1 g2 g3 g4,
-    eliminate_self_dependencies lang_lhs_sub_reads lbr c07_seed_node_vars ords t = TOk (t1, g1) /\
+    eliminate_self_dependencies lang_lhs_sub_reads lbr c07_seed_node_vars c07_sd_sorted ords t = TOk (t1, g1) /\
     isolate_function_arguments lang_lhs_sub_reads lbr c07_seed_node_vars t1 = TOk (t2, g2) /\
     isolate_function_calls lang_lhs_sub_reads lbr c07_seed_node_vars fixed t2 = TOk (t3, g3) /\
     expand_IfThenElse lang_lhs_sub_reads lbr c07_seed_node_vars c07_ite_flag_first t3 = TOk (t4, g4) /\
@@ -89,8 +89,8 @@ Theorem C07_pipeline_partial : forall F dg lbr fixed ords t t4,
        (NoDup (tids t) -> NoDup (tids t4)) /\
        (forall a, srel (N1 ++ N2 ++ N3 ++ N4) (run F dg t a) (run F dg t4 a))).
 Proof.
-  exact (fun F dg => pipeline_thm F dg lang_lhs_sub_reads c07_seed_node_vars c07_ite_flag_first fortran_pass_order
-                                  eq_refl eq_refl eq_refl eq_refl).
+  exact (fun F dg lbr => pipeline_thm F dg lang_lhs_sub_reads c07_seed_node_vars c07_ite_flag_first fortran_pass_order
+                                      eq_refl eq_refl eq_refl eq_refl lbr c07_sd_sorted).
 Qed.
 Print Assumptions C07_pipeline_partial.
 
